@@ -240,7 +240,7 @@ def run(pid, tier, replay):
         with open(allobs, "w") as f:
             f.write(open(obs).read())
             f.write(open(robs).read())
-        total, done, devs, mism = validate(chk, allobs, shards=4 if quick else 14, workers=3 if quick else 2)
+        total, done, devs, mism = validate(chk, allobs, shards=2 if quick else 12, workers=4 if quick else 2)
         core.log("[%s] validated %d scenarios in %.1fs" % (pid, len(total), time.time() - t0))
         f_mc.result()
     for _, g, _ in parts:
